@@ -145,6 +145,20 @@ impl PathVisitor {
 }
 
 impl<'ast> MetaVisitor<'ast> for PathVisitor {
+    fn visit_meta_list(
+        &mut self,
+        meta_item: &'ast ast::MetaItem,
+        list: &'ast [ast::MetaItemInner],
+    ) {
+        // `cfg_attr(predicate, attributes..)` stands for its attributes: a `path` among them is a
+        // path attribute. Its predicate and the arguments of any other attribute are not.
+        if meta_item.has_name(sym::cfg_attr) {
+            for nm in list.iter().skip(1) {
+                self.visit_meta_item_inner(nm);
+            }
+        }
+    }
+
     fn visit_meta_name_value(
         &mut self,
         meta_item: &'ast ast::MetaItem,
